@@ -686,6 +686,11 @@ func c20engine(out *rec.Out, builder, file string, k int, conc bool, stats map[s
 			return
 		}
 		traces := inst.Tracer().SubscribeChannel(make(chan tracing.ITrace, 256))
+		if i%2 == 1 {
+			// every second instance is STARTED TWICE (a caller that repeats StartAll): the start events have fired, their
+			// second tokens end at once — with flow ids of their own
+			_ = inst.StartAll(ctx)
+		}
 		if err := inst.StartAll(ctx); err != nil {
 			r.pan = "start:" + strings.ReplaceAll(err.Error(), " ", "_")
 			return
@@ -701,7 +706,10 @@ func c20engine(out *rec.Out, builder, file string, k int, conc bool, stats map[s
 				r.traces++
 				switch t := tracing.Unwrap(tr).(type) {
 				case bpmn.InstantiationTrace:
-					r.inst = append(r.inst, hex.EncodeToString(t.InstanceId.Bytes()))
+					// (an instance that is started twice announces itself twice, with its one id)
+					if h := hex.EncodeToString(t.InstanceId.Bytes()); len(r.inst) == 0 || r.inst[len(r.inst)-1] != h {
+						r.inst = append(r.inst, h)
+					}
 				case bpmn.NewFlowTrace:
 					r.flows = append(r.flows, hex.EncodeToString(t.FlowId.Bytes()))
 				case bpmn.TaskTrace:
